@@ -40,6 +40,8 @@ CONFIGS = {
 }
 CODECS = [(C.K_UTF8, "utf-8", "u8"), (C.K_UTF16, "utf-16", "u16"), (C.K_LATIN1, "latin-1", "l1")]
 XML_DECL = '<?xml version="1.0" ?>'
+# the XML reader of ConvOps.tla recurses once per character of output: give TLC's worker threads a deep Java stack
+JVM = {"JAVA_TOOL_OPTIONS": "-Xss64m"}
 
 
 def devkey(d):
@@ -213,7 +215,7 @@ def direction_a_model(ck, dev, judge):
                         constraints=["EmitTerminal"])
         emit = os.path.join(ck.tmp, mod + ".ndjson")
         cov = ck.tier == "quick" and label == "strings"
-        res = run_tlc(wrapper, cfg, emit=emit, coverage=cov, timeout=3600, lib=os.path.join(SPECS, "conv"))
+        res = run_tlc(wrapper, cfg, emit=emit, coverage=cov, timeout=3600, lib=os.path.join(SPECS, "conv"), env=JVM)
         ck.add_tlc(res, "%s: %s, <= %d nodes, %s" % (label, kinds if len(kinds) < 12 else "kinds subset", maxn, strings))
         if not res.ok:
             raise MachineryError("Converters.tla violates %s on the intended design (%s):\n%s" % (res.violated, label, res.error_text[:3000]))
@@ -249,7 +251,7 @@ def teeth(ck):
         cfg = write_cfg(os.path.join(ck.tmp, mod + ".cfg"),
                         constants={"MaxNodes": 3, "Strings": "<- Palette2", "Kinds": "<- TheKinds", "DevChoices": "<- TheDevs"},
                         invariants=[inv])
-        res = run_tlc(wrapper, cfg, workers=2, timeout=600, lib=os.path.join(SPECS, "conv"))
+        res = run_tlc(wrapper, cfg, workers=2, timeout=600, lib=os.path.join(SPECS, "conv"), env=JVM)
         ck.add_tlc(res, "counterexample search: %s alone against %s" % (d, inv))
         if res.ok or res.violated != inv:
             raise MachineryError("vacuous: deviation %s does not violate %s in the specification" % (d, inv))
